@@ -40,7 +40,7 @@ def plan(tier, seed):
     specs.extend(big.specs(tier, seed, 'C08'))
     meta = dict(
         rule=RULE,
-        require=['big_histories', 'steps', 'quiescent_checks', 'handles_created',
+        require=['big_histories', 'huge_histories', 'steps', 'quiescent_checks', 'handles_created',
                  'handles_deleted', 'shutdown_checks', 'step_traverse',
                  'step_dup', 'step_fop', 'gc_calls',
                  'dynamic_reorderings'],
@@ -62,10 +62,10 @@ def history(ctx, spec):
     reorders = [0]
     orig = _b.reorder
 
-    def counting_reorder(bdd, order=None):
+    def counting_reorder(bdd, order=None, *args, **kw):
         if bdd._last_len is None and order is None:
             reorders[0] += 1
-        return orig(bdd, order)
+        return orig(bdd, order, *args, **kw)
     _b.reorder = counting_reorder
     try:
         if spec['dynamic']:
